@@ -5,13 +5,17 @@
            the changes, prefix stripped, as nibbles.
    CHistory: the storage dump at genesis and, per block, the block's change set (keys without the prefix) and the live
            dump of all contract storage after the block.  Model = specification: dump_h = map_apply changes_h dump_(h-1)
-           (the recurrence [storage_after] of the theorems), every dump strictly sorted. *)
+           (the recurrence [storage_after] of the theorems), every dump strictly sorted.
+   CSeek: the content of a trie (full keys), one range, and what the real mpt.TrieStore.Seek returned (keys with the
+           seek prefix cut).  Model = specification: [sm_range] (the range query C09 proves for every store of the
+           node: forwards suffix >= start, backwards suffix <= start or extending it). *)
 From NG Require Import Common.Tactics Common.HarnessLib StateRoot.Model.
 Open Scope N_scope.
 
 Inductive case :=
 | CBatch (changes impl : list change)
-| CHistory (genesis : smap) (blocks : list (list change * smap)).
+| CHistory (genesis : smap) (blocks : list (list change * smap))
+| CSeek (content : smap) (prefix start : bytes) (bw : bool) (impl : smap).
 
 Definition bytes_eqb : bytes -> bytes -> bool := list_eqb N.eqb.
 Definition change_eqb (a b : change) : bool :=
@@ -46,5 +50,10 @@ Definition check_case (c : case) : N :=
   | CHistory genesis blocks =>
       if strictly_sorted genesis then
         let ok := history_ok genesis blocks in code_of ok ok
+      else 3
+  | CSeek content prefix start bw impl =>
+      if strictly_sorted content then
+        let want := map (fun p : bytes * val => (skipn (length prefix) (fst p), snd p)) (sm_range prefix start bw content) in
+        let ok := list_eqb kv_eqb want impl in code_of ok ok
       else 3
   end.
